@@ -219,6 +219,10 @@ class MultiFS(FS):
                 directory.extend(_fs.listdir(path))
             except errors.ResourceNotFound:
                 pass
+            except errors.DirectoryExpected:
+                # a file in a lower-priority member is shadowed by the directory
+                if not exists:
+                    raise
             else:
                 exists = True
         if not exists:
@@ -277,6 +281,10 @@ class MultiFS(FS):
                 exists = True
             except errors.ResourceNotFound:
                 pass
+            except errors.DirectoryExpected:
+                # a file in a lower-priority member is shadowed by the directory
+                if not exists:
+                    raise
 
         if not exists:
             raise errors.ResourceNotFound(path)
